@@ -24,6 +24,7 @@ def _claim_comment(
     *,
     backwards: bool,
     ignore_if_already_claimed: bool,
+    indented: bool,
 ) -> Optional[BlockComment]:
     if current is not None:
         return current
@@ -42,7 +43,7 @@ def _claim_comment(
     if not isinstance(newline, Newline):
         return None
     comment = _take_ignored(succ(newline), succ, ignored)
-    if not isinstance(comment, BlockComment):
+    if not isinstance(comment, BlockComment) or bool(comment.indent) != indented:
         return None
 
     if comment.claimed:
@@ -70,7 +71,8 @@ class SurroundingCommentsMixin(base.RawTreeModel):
             self.token_store,
             self.first_token,
             backwards=True,
-            ignore_if_already_claimed=ignore_if_already_claimed)
+            ignore_if_already_claimed=ignore_if_already_claimed,
+            indented=hasattr(self, '_indent'))
         return self._leading_comment
 
     def unclaim_leading_comment(self) -> Optional[BlockComment]:
@@ -86,7 +88,8 @@ class SurroundingCommentsMixin(base.RawTreeModel):
             self.token_store,
             self.last_token,
             backwards=False,
-            ignore_if_already_claimed=ignore_if_already_claimed)
+            ignore_if_already_claimed=ignore_if_already_claimed,
+            indented=hasattr(self, '_indent'))
         return self._trailing_comment
 
     def unclaim_trailing_comment(self) -> Optional[BlockComment]:
